@@ -6,7 +6,7 @@ CHECK = {
     "level_text": "Small multi-threaded scenarios (1-5 operations per thread on pools of 1-3 slots, queues of up to 4 tasks with "
                   "0/1/2 shared or disjoint resource locks, locks, counters, LockFree::add, MemorySpace overflow, crossed "
                   "two-lock acquisition, buffer reuse after free; plus systematic families: every pool of 1-3 slots x every initial "
-                  "history over {get, free, re-get} (wrapped cursors, held slots) x every 1-2 operation program per thread, every "
+                  "history over {get, free, re-get} (wrapped cursors, held slots) x every 1-2 operation program per thread (thorough: pools of 1-4 slots, histories up to length 4, and take-release-take programs of three operations against every one-operation partner), every "
                   "queue of six tasks x initially held task x program, with a scheduling point while a slot or task is held and, "
                   "where marked, after every modifying atomic operation) run on the real classes with every std::atomic operation announced to a cooperative "
                   "scheduler. 2-thread scenarios are explored over ALL interleavings (search pruned only at already visited "
